@@ -38,6 +38,7 @@ nodes:
           var t = trail + ">" + id;
           if (mode == "routed") { _.out({to: target, trail: t + "r", n: n - 1}); }
           else if (mode == "unrouted") { _.out({trail: t + "u", n: n - 1}); }
+          else if (mode == "refwd") { var p = m; p.n = n - 1; p.to = target; p.trail = t + "f"; _.out(p); p.to = id; p.trail = t + "g"; _.out(p); }
           else if (mode == "two") { _.out({to: target, trail: t + "1", n: n - 1}); _.out({trail: t + "2", n: n - 1}); }
         }
         return {log: log, mode: mode, target: target};
@@ -150,6 +151,9 @@ func m14Ref(sc m14Scenario) (logs map[string]string, emitted string) {
 				case "two":
 					queue = append(queue, msg{to: by[id].Target, hasTo: true, trail: t + "1", n: m.n - 1}, msg{trail: t + "2", n: m.n - 1})
 					em = append(em, t+"1", t+"2")
+				case "refwd":
+					queue = append(queue, msg{to: by[id].Target, hasTo: true, trail: t + "f", n: m.n - 1}, msg{to: id, hasTo: true, trail: t + "g", n: m.n - 1})
+					em = append(em, t+"f", t+"g")
 				}
 			}
 		}
@@ -346,7 +350,7 @@ func C14mcrew(c *vh.Ctx) {
 		}
 		return
 	}
-	modes := []mrec{{Mode: "none"}, {Mode: "routed", Target: "a"}, {Mode: "routed", Target: "b"}, {Mode: "unrouted"}, {Mode: "two", Target: "b"}, {Mode: "routed", Target: "timers"}, {Mode: "routed", Target: "ws"}}
+	modes := []mrec{{Mode: "none"}, {Mode: "routed", Target: "a"}, {Mode: "routed", Target: "b"}, {Mode: "unrouted"}, {Mode: "two", Target: "b"}, {Mode: "routed", Target: "timers"}, {Mode: "routed", Target: "ws"}, {Mode: "refwd", Target: "b"}}
 	targets := []interface{}{"<absent>", "a", "b", "zz", "*", []interface{}{"a", "b"}, 7.0, "ws", "timers", "", "http", nil, true}
 	depth := c.Pick(2, 3)
 	c.Bound("mcrew_counter_depth", depth)
